@@ -1,2 +1,61 @@
-import Bashlex
-def main : IO Unit := IO.println "driver"
+/-
+  Line-protocol driver for the model (compiled, Mathlib-free).
+  Request (one per line):   <cmd> <opts> <input>
+    cmd   = parse | single | split
+    opts  = s=<0|1>,l=<N|int>,c=<0|1>,p=<0|1>     (strict, limit, convertpos, proceed)
+    input = code points in hex joined by '.', "" for the empty string ("-" also means empty)
+  Reply: canonical outcome (Bashlex/Serialize.lean), then " ## " and the sorted `sh_syntaxtab`
+  keys newly touched.
+-/
+import Bashlex.Serialize
+import Bashlex.Spec.Eval
+
+open Bashlex
+
+def parseHexInput (s : String) : Str :=
+  if s == "" || s == "-" then []
+  else (s.splitOn ".").filterMap fun h =>
+    let n := h.toList.foldl (fun acc c =>
+      let d := if '0' ≤ c && c ≤ '9' then c.toNat - 48
+               else if 'a' ≤ c && c ≤ 'f' then c.toNat - 87
+               else if 'A' ≤ c && c ≤ 'F' then c.toNat - 55 else 0
+      16 * acc + d) 0
+    if h == "" then none else some (Char.ofNat n)
+
+def parseOpts (s : String) : Opts :=
+  (s.splitOn ",").foldl (fun o kv =>
+    match kv.splitOn "=" with
+    | ["s", v] => { o with strict := v == "1" }
+    | ["l", v] => { o with limit := if v == "N" then none else v.toInt? }
+    | ["c", v] => { o with convertpos := v == "1" }
+    | ["p", v] => { o with proceed := v == "1" }
+    | _ => o) {}
+
+def showTouched (t : List Char) : String :=
+  joinWith "." ((t.map (·.toNat)).toArray.qsort (· < ·) |>.toList.map hexOf)
+
+def handle (line : String) : String :=
+  match line.splitOn " " with
+  | [cmd, opts, inp] =>
+    let s := parseHexInput inp
+    let o := parseOpts opts
+    let src := if o.convertpos then some s else none
+    match cmd with
+    | "parse" => let (r, t) := parse s o; showOutcome src r ++ " ## " ++ showTouched t
+    | "single" => let (r, t) := parsesingle s o; showOutcome src r ++ " ## " ++ showTouched t
+    | "split" => let (r, t) := split s; showOutcome none r ++ " ## " ++ showTouched t
+    | _ => specHandle cmd opts inp
+  | _ => "BAD-REQUEST"
+
+partial def loop (hin : IO.FS.Stream) (hout : IO.FS.Stream) : IO Unit := do
+  let line ← hin.getLine
+  if line.isEmpty then return ()
+  let line := (line.dropRightWhile (fun c => c == '\n' || c == '\r'))
+  hout.putStrLn (handle line)
+  loop hin hout
+
+def main : IO Unit := do
+  let hin ← IO.getStdin
+  let hout ← IO.getStdout
+  loop hin hout
+  hout.flush
